@@ -359,6 +359,13 @@ def _filter(rep: Report, ctx: Ctx, filt: FuncInfo, raw: FuncInfo) -> None:
     loops = [n for n in body if isinstance(n, ast.For)]
     first = [l for l in loops
              if unparse(l.iter) == "self.node_models_to_save"]
+    wrapped = [l for l in loops if l not in first and isinstance(
+        l.iter, ast.Call) and call_name(l.iter) in ("groupby", "enumerate")
+        and l.iter.args and unparse(l.iter.args[0]) ==
+        "self.node_models_to_save"]
+    if not first and len(wrapped) == 1:
+        _filter_dict_survivors(rep, ctx, filt, raw, wrapped[0])
+        return
     if len(first) != 1:
         bad = [l for l in loops if "node_models_to_save" in unparse(l.iter)]
         rep.ob("R10.6", "the batch is scanned in arrival order", False,
@@ -522,3 +529,47 @@ def _filter(rep: Report, ctx: Ctx, filt: FuncInfo, raw: FuncInfo) -> None:
            fi=filt, node=rc[0] if rc else filt.node,
            detail="commit_batched_data_to_database() after the rebuild, on "
                   "every path")
+
+
+def _filter_dict_survivors(rep: Report, ctx: Ctx, filt: FuncInfo,
+                           raw: FuncInfo, loop: ast.For) -> None:
+    """Survivors collected in a dict keyed by the span id while scanning the
+    pending list in arrival order (possibly run-wise through groupby):
+    a plain ``d[key] = node`` keeps the LAST occurrence, ``setdefault`` / a
+    ``key not in d`` guard keeps the first."""
+    rep.ob("R10.6", "the batch is scanned in arrival order", True, fi=filt,
+           node=loop, detail=f"for {unparse(loop.target)} in "
+           f"{unparse(loop.iter)[:70]}")
+    stores = [s for s in ast.walk(loop) if isinstance(s, ast.Assign)
+              and isinstance(s.targets[0], ast.Subscript)
+              and isinstance(s.targets[0].value, ast.Name)]
+    setdefaults = [c for c in ast.walk(loop) if isinstance(c, ast.Call)
+                   and call_name(c) == "setdefault"]
+    model_stores = []
+    for st in stores:
+        ann = [b for b in ctx.defs(filt).of(st.targets[0].value.id)]
+        txt = " ".join(unparse(getattr(b.stmt, "annotation", None))
+                       for b in ann if hasattr(b.stmt, "annotation"))
+        if "NodeModel" in txt:
+            model_stores.append(st)
+    if not model_stores and not setdefaults:
+        raise AnalysisError(f"{filt.qualname}: survivor collection outside "
+                            "the vocabulary of R10.6")
+    for st in model_stores:
+        g = enclosing(loop, st, (ast.If,))
+        guarded = any(" not in " in unparse(i.test) and unparse(
+            st.targets[0].value) in unparse(i.test) for i in g)
+        rep.ob("R10.6", "a span is kept iff its id was not seen before in "
+               "the batch", guarded, fi=filt, node=st,
+               detail=(f"'{unparse(st)[:70]}' "
+                       + ("is guarded by a not-seen test" if guarded else
+                          "overwrites an earlier entry with the same id: when "
+                          "the same id occurs again later in the batch (not "
+                          "adjacent) the LAST occurrence and its parent link "
+                          "are stored instead of the first")))
+    raise_rest = [o for o in rep.obligations if o.rule == "R10.6"
+                  and not o.ok]
+    if not raise_rest:
+        raise AnalysisError(f"{filt.qualname}: dict-based duplicate filter "
+                            "recognised as first-wins; the remaining "
+                            "skeleton of R10.6 is outside the vocabulary")
